@@ -166,6 +166,39 @@ def unindent (isSpace : Char → Bool) (b : Buf) (fromRow toRow : Int) (count : 
   setCursor b1 ((b1.cur : Int) + col - ic.length)
 
 
+
+/-! ### join_selected_lines and the `document` setter -/
+
+/-- `"\r\n"` counts as one line break for `str.splitlines()` -/
+def crlf : Text → Text
+  | '\r' :: '\n' :: r => '\n' :: crlf r
+  | c :: r => c :: crlf r
+  | [] => []
+
+def splitBreaks (isBreak : Char → Bool) : Text → Text → List Text
+  | [], acc => if acc.isEmpty then [] else [acc.reverse]
+  | c :: rest, acc =>
+    if isBreak c then acc.reverse :: splitBreaks isBreak rest []
+    else splitBreaks isBreak rest (c :: acc)
+
+/-- `str.splitlines()` (no keepends): break characters are a runtime table (parameter) -/
+def splitLinesPy (isBreak : Char → Bool) (t : Text) : List Text := splitBreaks isBreak (crlf t) []
+
+/-- `Buffer.document = Document(t, c)`: `Document.__init__` asserts `c <= len(t)` (AssertionError:
+    nothing happens); `_set_cursor_position` stores `max(0, c)`. -/
+def setDoc (b : Buf) (t : Text) (c : Int) : Buf :=
+  if c ≤ (t.length : Int) then { text := t, cur := c.toNat } else b
+
+/-- `Buffer.join_selected_lines(separator)` with `selection_state.original_cursor_position = orig` -/
+def joinSelectedLines (isBreak : Char → Bool) (b : Buf) (orig : Nat) (sep : Text) : Buf :=
+  let from_ := min b.cur orig
+  let to := max b.cur orig
+  let before := b.text.take from_
+  let lines := (splitLinesPy isBreak ((b.text.take to).drop from_)).map fun l => lstripChar ' ' l ++ sep
+  let after := b.text.drop to
+  setDoc b (before ++ lines.flatten ++ after)
+    (((before ++ lines.dropLast.flatten).length : Int) - 1)
+
 /-! ### readline named commands built on the edit API
     (src/prompt_toolkit/key_binding/bindings/named_commands.py) -/
 
@@ -242,11 +275,15 @@ inductive Op
   | selfInsert (data : Text) (arg : Int)
   | transposeChars
   | trWords (n : Nat)
+  | setDoc (t : Text) (c : Int)
+  | joinSelected (orig : Nat) (sep : Text)
 deriving Repr
 
 /-- One step; the `Text` is the method's return value (empty when it returns None).
     An `AssertionError` (transform_region with from ≥ to) leaves the buffer unchanged. -/
 def step (isSpace : Char → Bool) (f : Text → Text) (b : Buf) : Op → Buf × Text
+  | .setDoc t c => (setDoc b t c, [])
+  | .joinSelected o s => (joinSelectedLines isSpace b o s, [])
   | .backwardDeleteChar a => backwardDeleteChar b a
   | .deleteChar a => deleteChar b a
   | .selfInsert d a => (selfInsert b d a, [])
